@@ -48,7 +48,7 @@ VARIABLES
   dests,     \* Seq of destination ids currently registered (Destinations._destinations after the first add)
   anyAdded,  \* Destinations._any_added
   buffer,    \* BufferingDestination.messages
-  gf,        \* set of global field names
+  gf,        \* global fields in force: set of <<name, version>> (at most one version per name)
   reg,       \* exception classes (of the chain E2 < E1 < E0 < Exception) that have an extractor registered
   offered,   \* [Dest -> Seq([m, raised])]   every call made to each destination
   work,      \* stack (top = last) of pending internal steps of the call in progress
@@ -110,7 +110,9 @@ Msg(u, lv, k, ty, st, f, rep) ==
   [u |-> u, lv |-> lv, k |-> k, ty |-> ty, st |-> st, f |-> f, rep |-> rep, g |-> {}]
 
 WriteItem(m) == [t |-> "write", m |-> m]
-SendItem(m)  == [t |-> "send", m |-> [m EXCEPT !.g = @ \cup gf], done |-> {}, errs |-> <<>>]
+\* message.update(global fields): the values in force at send time win over what the message carried (re-delivery)
+MergeG(mg) == {p \in mg : ~\E q \in gf : q[1] = p[1]} \cup gf
+SendItem(m)  == [t |-> "send", m |-> [m EXCEPT !.g = MergeG(@)], done |-> {}, errs |-> <<>>]
 
 Key(m) == <<m.u, m.lv>>
 \* ghost bookkeeping when a FRESH message enters the output stage: every destination registered now
@@ -369,10 +371,10 @@ RemoveDest(c, d) ==
   /\ Begin(c, "ok", [op |-> "RemoveDest", c |-> c, d |-> d])
   /\ UNCHANGED <<acts, cur, blocks, born, base, nuuid, ids, anyAdded, buffer, gf, reg, offered, work, ret, nfaults, nmsgs, nodes, dev>>
 
-AddGlobal(c, f) ==
-  /\ Idle /\ born[c] /\ f \notin gf
-  /\ gf' = gf \cup {f}
-  /\ Begin(c, "ok", [op |-> "AddGlobal", c |-> c, f |-> f])
+AddGlobal(c, f, v) ==
+  /\ Idle /\ born[c] /\ <<f, v>> \notin gf
+  /\ gf' = {p \in gf : p[1] # f} \cup {<<f, v>>}
+  /\ Begin(c, "ok", [op |-> "AddGlobal", c |-> c, f |-> f, v |-> v])
   /\ UNCHANGED <<acts, cur, blocks, born, base, nuuid, ids, dests, anyAdded, buffer, reg, offered, work, ret, nfaults, nmsgs, nodes, dev, gh>>
 
 -----------------------------------------------------------------------------
@@ -554,7 +556,7 @@ Next ==
        \/ F("spawn") /\ \E c2 \in Ctx, k \in {"thread", "task"} : Spawn(c, c2, k)
        \/ F("dests") /\ (\/ \E S \in SUBSET Dest : AddDests(c, S)
                          \/ \E d \in Dest : RemoveDest(c, d)
-                         \/ \E f \in {"g1", "g2"} : AddGlobal(c, f))
+                         \/ \E f \in {"g1", "g2"}, v \in 1..2 : (f = "g2" => v = 1) /\ (\A p \in gf : p[1] = f => p[2] < v) /\ AddGlobal(c, f, v))
 Spec == Init /\ [][Next]_vars
 
 -----------------------------------------------------------------------------
